@@ -123,7 +123,7 @@ def _is_ambiguous(schema):
 
 class Args(Harness):
     name = "c07_args"
-    must_reach = ("positional", "keyword", "mixed", "reversed-kw")
+    must_reach = ("positional", "keyword", "mixed", "reversed-kw", "plain-values", "foreign-typed-values")
     functions = ("ProtocolHandler._ezsp_frame", "bellows.types.serialize_dict")
 
     def run(self, ctx, versions=VERSIONS, salts=2, every=1, offset=0):
@@ -143,6 +143,26 @@ class Args(Harness):
         salt = 1 + ctx.choice("salt", salts)
         plain = E.sample_schema(tx, salt)
         typed = [E.build(ty, v) for ty, v in zip(tx.values(), plain)]
+        form = ("exact", "plain", "foreign")[ctx.choice("form", 3)]
+        if form == "plain":
+            # plain Python values (int / bytes / list) for scalar fields: the schema type must coerce them
+            typed = [v if E._kind(ty) in ("int", "lvbytes", "bytes") else tv for ty, v, tv in zip(tx.values(), plain, typed)]
+            ctx.label("plain-values")
+        elif form == "foreign":
+            # values of a *different* wire type that denote the same value: a length-prefixed bytes field given an instance
+            # of the 4-byte-prefix variant, an integer field given a wider / narrower integer type's instance
+            import bellows.types as t
+
+            def other(ty, v, tv):
+                k = E._kind(ty)
+                if k == "lvbytes":
+                    return (t.LVBytes32 if ty._prefix_length == 1 else t.LVBytes)(v)
+                if k == "int" and not hasattr(ty, "__members__"):
+                    return (t.uint32_t if ty._size != 4 else t.uint64_t)(v) if v >= 0 else tv
+                return tv
+
+            typed = [other(ty, v, tv) for ty, v, tv in zip(tx.values(), plain, typed)]
+            ctx.label("foreign-typed-values")
         want = E.header(version, seq, fid, response=False) + E.enc_schema(tx, plain)
         keys = list(tx)
         k = ctx.choice("split", len(keys) + 1)
@@ -157,7 +177,7 @@ class Args(Harness):
         except Exception as e:
             ctx.fail("%s (v%d) with %d positional arguments raised %s: %s" % (name, version, k, type(e).__name__, e), "args-raise")
         ctx.check(list(got) == want,
-                  "%s (v%d), %d positional + %d keyword%s: frame %s, declared-order encoding %s" % (name, version, k, len(keys) - k, " (reversed)" if rev else "", bytes(got).hex(), bytes(want).hex()),
+                  "%s (v%d), %d positional + %d keyword%s, %s values: frame %s, declared-order encoding %s" % (name, version, k, len(keys) - k, " (reversed)" if rev else "", form, bytes(got).hex(), bytes(want).hex()),
                   "args-bytes")
         ctx.observe(version, name, k, rev, bytes(got))
 
